@@ -173,4 +173,4 @@ def _has_zero_issue(case):
 def nontrivial(c):
     return max([len(a) for a in c["args"] if isinstance(a, list)] + [0]) >= 2
 
-LEAN_EXTRA = ["PystogVerif.Gen.JunkFree"]
+LEAN_EXTRA = ["PystogVerif.Gen.JunkFree", "PystogVerif.Props.C16Div"]
